@@ -53,6 +53,7 @@ use crate::graph::Graph;
 use crate::graph::SyntaxNodeID;
 use crate::graph::SyntaxNodeRef;
 use crate::graph::Value;
+use crate::parser::FULL_MATCH;
 use crate::variables::Globals;
 use crate::variables::MutVariables;
 use crate::variables::VariableMap;
@@ -183,7 +184,7 @@ impl Stanza {
                 let node = mat
                     .nodes_for_capture_index(self.full_match_stanza_capture_index as u32)
                     .next()
-                    .expect("missing full capture");
+                    .ok_or_else(|| ExecutionError::UndefinedCapture(format!("@{}", FULL_MATCH)))?;
                 StatementContext::new(&statement, &self, &node)
             };
             let mut exec = ExecutionContext {
@@ -292,7 +293,7 @@ impl CreateGraphNode {
                 .mat
                 .nodes_for_capture_index(exec.full_match_stanza_capture_index as u32)
                 .next()
-                .expect("missing capture for full match");
+                .ok_or_else(|| ExecutionError::UndefinedCapture(format!("@{}", FULL_MATCH)))?;
             let syn_node = exec.graph.add_syntax_node(match_node);
             exec.graph[graph_node]
                 .attributes
